@@ -454,7 +454,26 @@ crate::vp_harness!(cmpq_ri, |s| { ri(s, Mn::Cmp, 64, |a, d, i| a.cmpq_ri(d, i)) 
 crate::vp_harness!(movl_ri, |s| { ri(s, Mn::Mov, 32, |a, d, i| a.movl_ri(d, i)) });
 crate::vp_harness!(movq_ri, |s| { ri(s, Mn::Mov, 64, |a, d, i| a.movq_ri(d, i)) });
 crate::vp_harness!(subq_ri, |s| { ri(s, Mn::Sub, 64, |a, d, i| a.subq_ri(d, i)) });
-crate::vp_harness!(testl_ri, |s| { ri(s, Mn::Test, 32, |a, d, i| a.testl_ri(d, i)) });
+// testl_ri is split by operand class so that the two parts can be told apart in known_findings.json:
+//   testl_ri        immediates that do NOT fit an unsigned byte: 32-bit TEST with the requested register / imm32
+//   testl_ri__imm8  immediates 0..=255: the assembler deliberately narrows to `test r/m8, imm8` (open finding: SF differs
+//                   from the requested 32-bit TEST when bit 7 of the immediate is set)
+crate::vp_harness!(testl_ri, |s| {
+    let (d, dn) = gpr(s);
+    let (i, v) = imm(s);
+    s.assume(!(v >= 0 && v <= 255)); // the other half of the domain is row testl_ri__imm8
+    let mut a = AssemblerX64::new(false);
+    a.testl_ri(d, i);
+    finish(a, Insn::op2(Mn::Test, 32, dec::gpr(dn, 32), imm_for(v, 32)));
+});
+crate::vp_harness!(testl_ri__imm8, |s| {
+    let (d, dn) = gpr(s);
+    let (i, v) = imm(s);
+    s.assume(v >= 0 && v <= 255);
+    let mut a = AssemblerX64::new(false);
+    a.testl_ri(d, i);
+    finish(a, Insn::op2(Mn::Test, 32, dec::gpr(dn, 32), imm_for(v, 32)));
+});
 crate::vp_harness!(xorl_ri, |s| { ri(s, Mn::Xor, 32, |a, d, i| a.xorl_ri(d, i)) });
 crate::vp_harness!(sarl_ri, |s| { shift_i(s, Mn::Sar, 32, |a, d, i| a.sarl_ri(d, i)) });
 crate::vp_harness!(sarq_ri, |s| { shift_i(s, Mn::Sar, 64, |a, d, i| a.sarq_ri(d, i)) });
